@@ -37,6 +37,9 @@ func classify(multiline bool, pattern, in string, on, off result) string {
 		}
 		return "unclassified:captures-differ:" + pattern
 	case off.ok && !on.ok:
+		if isExactLiteral(pattern) && !strings.Contains(in, "\n") {
+			return "exact-match-fast-path:false-negative"
+		}
 		ci := hasFold(re)
 		lits := mandatoryLiterals(re, ci)
 		if len(lits) > 0 {
@@ -49,6 +52,13 @@ func classify(multiline bool, pattern, in string, on, off result) string {
 			}
 			if endsWithTextAnchor(re) && !strings.HasSuffix(cmp, lits[len(lits)-1]) && containsAll(cmp, lits) {
 				return "prefilter:last-literal-assumed-at-end-anchor"
+			}
+			// (?m)^ / (?m)$ taken for a text anchor
+			if edgeOp(re, syntax.OpBeginLine, false) && !strings.HasPrefix(cmp, lits[0]) && containsAll(cmp, lits) {
+				return "prefilter:begin-line-anchor-taken-for-text-anchor"
+			}
+			if edgeOp(re, syntax.OpEndLine, true) && !strings.HasSuffix(cmp, lits[len(lits)-1]) && containsAll(cmp, lits) {
+				return "prefilter:end-line-anchor-taken-for-text-anchor"
 			}
 		}
 		if trieShape(re) {
@@ -129,26 +139,26 @@ func mandatoryLiterals(re *syntax.Regexp, ci bool) []string {
 	return nil
 }
 
-func beginsWithTextAnchor(re *syntax.Regexp) bool {
-	switch re.Op {
-	case syntax.OpBeginText:
-		return true
-	case syntax.OpCapture:
-		return beginsWithTextAnchor(re.Sub[0])
-	case syntax.OpConcat:
-		return len(re.Sub) > 0 && beginsWithTextAnchor(re.Sub[0])
-	}
-	return false
-}
+func beginsWithTextAnchor(re *syntax.Regexp) bool { return edgeOp(re, syntax.OpBeginText, false) }
 
-func endsWithTextAnchor(re *syntax.Regexp) bool {
+func endsWithTextAnchor(re *syntax.Regexp) bool { return edgeOp(re, syntax.OpEndText, true) }
+
+// edgeOp: the first (last) element of the pattern, through captures and
+// concatenations, is the given empty-width operator.
+func edgeOp(re *syntax.Regexp, op syntax.Op, trailing bool) bool {
 	switch re.Op {
-	case syntax.OpEndText:
+	case op:
 		return true
 	case syntax.OpCapture:
-		return endsWithTextAnchor(re.Sub[0])
+		return edgeOp(re.Sub[0], op, trailing)
 	case syntax.OpConcat:
-		return len(re.Sub) > 0 && endsWithTextAnchor(re.Sub[len(re.Sub)-1])
+		if len(re.Sub) == 0 {
+			return false
+		}
+		if trailing {
+			return edgeOp(re.Sub[len(re.Sub)-1], op, trailing)
+		}
+		return edgeOp(re.Sub[0], op, trailing)
 	}
 	return false
 }
